@@ -345,6 +345,10 @@ def join(a: Val, b: Val) -> Val:
                 base = o.split("|", 1)[0]
                 if base not in x_.data and base in y_.data:
                     data = data | {o + "|path"}
+    # may-alias facts survive a merge when either side carries them
+    for k_ in ("self_container",):
+        if k_ not in tags and (a.tags.get(k_) or b.tags.get(k_)):
+            tags[k_] = a.tags.get(k_) or b.tags.get(k_)
     # must-dependence: what reaches the value on EVERY joined path (valid right after the merge; plain operations drop the tag)
     tags["must_data"] = frozenset(a.tags.get("must_data", a.data)) & frozenset(b.tags.get("must_data", b.data))
     return Val(const, data, a.shp | b.shp, a.ctrl | b.ctrl, join_shape(a.shape, b.shape), u,
